@@ -214,7 +214,9 @@ theorem eventsPre_eq (cfg : Cfg) (n : Node) (f : Filter) (fromB toB : Nat) (tok 
         match n.chain.length with
         | 0 => (.err .empty, n.cache)
         | height + 1 =>
-          if toB != sentinel && toB ≤ height then canonical cfg n f chunk limit (startOf fromB tok) toB (skipOf tok)
+          if startOf fromB tok ≤ (if toB != sentinel && toB ≤ height then height else base) && startOf fromB tok < n.floor then
+            (.err .pruned, n.cache)
+          else if toB != sentinel && toB ≤ height then canonical cfg n f chunk limit (startOf fromB tok) toB (skipOf tok)
           else if toB ≤ base then canonical cfg n f chunk limit (startOf fromB tok) toB (skipOf tok)
           else
             if startOf fromB tok ≤ base then
@@ -252,7 +254,7 @@ theorem eventsPre_spec (cfg : Cfg) (n : Node) (f : Filter) (fromB toB : Nat) (to
     (hW : 1 ≤ cfg.W) (hchunk : 1 ≤ chunk) (hlen : n.chain.length = height + 1) (hpre : pre ≠ [])
     (hfit : height + pre.length < sentinel)
     (hwf : ChainWF n.chain) (hpwf : ∀ blk ∈ pre, ∀ it ∈ blk.items, it ∈ blk.bloom)
-    (hs : Servable cfg n height) (hc : CacheGood cfg n n.cache)
+    (hs : Servable cfg n height) (hc : CacheGood cfg n n.cache) (hfl : n.floor ≤ startOf fromB tok)
     (hskip : skipOf tok = 0 ∨
       (selFrom f (n.chain ++ pre) (loOf fromB tok (height + pre.length)) (skipOf tok) ≠ [] ∧
         startOf fromB tok ≠ sentinel ∧ startOf fromB tok ≤ toB)) :
@@ -268,13 +270,13 @@ theorem eventsPre_spec (cfg : Cfg) (n : Node) (f : Filter) (fromB toB : Nat) (to
   have hcongr : ∀ b, b ≤ height → n.chain[b]? = (n.chain ++ pre)[b]? := by
     intro b hb; rw [List.getElem?_append_left (by omega)]
   -- lifting a canonical page over `[start, to]`, `to ≤ height`, to the extended chain
-  have hcanon : ∀ start to, to ≤ height → (skipOf tok = 0 ∨ selFrom f n.chain start (skipOf tok) ≠ []) →
+  have hcanon : ∀ start to, to ≤ height → n.floor ≤ start → (skipOf tok = 0 ∨ selFrom f n.chain start (skipOf tok) ≠ []) →
       WinPost f (n.chain ++ pre) chunk limit start to [] (skipOf tok) 0
           (canonical cfg n f chunk limit start to (skipOf tok)).1 ∧
         CacheGood cfg n (canonical cfg n f chunk limit start to (skipOf tok)).2 := by
-    intro start to hto hsk
+    intro start to hto hfs hsk
     obtain ⟨hp, hcg⟩ := canonical_spec cfg n f chunk limit start to (skipOf tok) hW (by omega) hwf
-      (hs.mono hto) hc hsk
+      (hs.mono hto) hc hfs hsk
     refine ⟨?_, hcg⟩
     revert hp
     cases (canonical cfg n f chunk limit start to (skipOf tok)).1 with
@@ -309,6 +311,9 @@ theorem eventsPre_spec (cfg : Cfg) (n : Node) (f : Filter) (fromB toB : Nat) (to
     have : height' = height := by omega
     subst this
     have hsent : sentinel = 2 ^ 64 - 1 := rfl
+    have hnp : ∀ x, (decide (startOf fromB tok ≤ x) && decide (startOf fromB tok < n.floor)) = false := by
+      intro x; simp only [Bool.and_eq_false_iff, decide_eq_false_iff_not]; right; omega
+    simp only [hnp, Bool.false_eq_true, if_false]
     by_cases hA : (toB != sentinel && decide (toB ≤ height')) = true
     · -- the range ends in the canonical chain
       simp only [hA, if_true]
@@ -323,7 +328,7 @@ theorem eventsPre_spec (cfg : Cfg) (n : Node) (f : Filter) (fromB toB : Nat) (to
           rcases hskip with h | ⟨_, h, _⟩
           · exact h
           · exact absurd hst h
-        obtain ⟨hp, hcg⟩ := hcanon (startOf fromB tok) toB hA.2 (Or.inl hsk0)
+        obtain ⟨hp, hcg⟩ := hcanon (startOf fromB tok) toB hA.2 hfl (Or.inl hsk0)
         refine ⟨?_, hcg⟩
         revert hp
         cases (canonical cfg n f chunk limit (startOf fromB tok) toB (skipOf tok)).1 with
@@ -340,7 +345,7 @@ theorem eventsPre_spec (cfg : Cfg) (n : Node) (f : Filter) (fromB toB : Nat) (to
           simp [loOf, this]
         rw [hl]
         by_cases hle : startOf fromB tok ≤ height'
-        · exact hcanon _ toB hA.2 (hskipChain hle)
+        · exact hcanon _ toB hA.2 hfl (hskipChain hle)
         · -- start above the range end: nothing, whatever the skip count
           have hcan : canonical cfg n f chunk limit (startOf fromB tok) toB (skipOf tok) = (.ok [] Token.none, n.cache) := by
             unfold canonical; simp [show startOf fromB tok > toB by omega]
@@ -382,7 +387,7 @@ theorem eventsPre_spec (cfg : Cfg) (n : Node) (f : Filter) (fromB toB : Nat) (to
         have hst' : (startOf fromB tok == sentinel) = false := by simpa using hst
         simp only [hst', Bool.false_eq_true, if_false]
         rw [hl]
-        obtain ⟨hp, hcg⟩ := hcanon (startOf fromB tok) height' (Nat.le_refl _) (hskipChain hle)
+        obtain ⟨hp, hcg⟩ := hcanon (startOf fromB tok) height' (Nat.le_refl _) hfl (hskipChain hle)
         revert hp hcg
         generalize canonical cfg n f chunk limit (startOf fromB tok) height' (skipOf tok) = cr
         obtain ⟨res, c⟩ := cr
@@ -457,6 +462,7 @@ theorem collectPre_spec (cfg : Cfg) (f : Filter) (fromB toB chunk limit height :
     (hpwf : ∀ blk ∈ pre, ∀ it ∈ blk.items, it ∈ blk.bloom) :
     ∀ (fuel : Nat) (n : Node) (tok : Option Token),
       n.chain.length = height + 1 → ChainWF n.chain → Servable cfg n height → CacheGood cfg n n.cache →
+      n.floor ≤ startOf fromB tok → n.floor ≤ height →
       ValidPre f (n.chain ++ pre) fromB toB (height + pre.length) tok →
       (wantN f (n.chain ++ pre) (loOf fromB tok (height + pre.length))
           (min toB (height + pre.length) + 1 - loOf fromB tok (height + pre.length)) (skipOf tok)).length
@@ -466,12 +472,12 @@ theorem collectPre_spec (cfg : Cfg) (f : Filter) (fromB toB chunk limit height :
           (min toB (height + pre.length) + 1 - loOf fromB tok (height + pre.length)) (skipOf tok)) := by
   intro fuel
   induction fuel with
-  | zero => intro n tok _ _ _ _ _ h; omega
+  | zero => intro n tok _ _ _ _ _ _ _ h; omega
   | succ fuel ih =>
-    intro n tok hlen hwf hs hc hv hfuel
+    intro n tok hlen hwf hs hc hfl hfh hv hfuel
     unfold collectPre
     simp only [queryPre]
-    obtain ⟨hpost, hcg⟩ := eventsPre_spec cfg n f fromB toB tok chunk limit height pre hW hchunk hlen hpre hfit hwf hpwf hs hc hv
+    obtain ⟨hpost, hcg⟩ := eventsPre_spec cfg n f fromB toB tok chunk limit height pre hW hchunk hlen hpre hfit hwf hpwf hs hc hfl hv
     revert hpost
     cases hr : (eventsPre cfg n f fromB toB tok chunk limit height pre).1 with
     | err e => simp [WinPost]
@@ -495,6 +501,12 @@ theorem collectPre_spec (cfg : Cfg) (f : Filter) (fromB toB chunk limit height :
           simp [loOf, startOf, this]
         have hrec := ih { n with cache := (eventsPre cfg n f fromB toB tok chunk limit height pre).2 } (some t)
           hlen hwf ⟨hs.running, hs.persisted⟩ hcg
+          (by
+            show n.floor ≤ t.b
+            have : loOf fromB tok (height + pre.length) ≤ t.b := h1
+            simp only [loOf] at this
+            split at this <;> omega)
+          hfh
           (by
             rcases hv' with h | h
             · exact Or.inl h
